@@ -328,6 +328,39 @@ func TestC06_Analysis(t *testing.T) {
 		if !noDup(a.Keywords) || !noDup(a.Actions) || !noDup(a.Targets) {
 			t.Fatalf("analysis of %q has duplicates: %+v", q, a)
 		}
+		if added := enh[min(len(a.Keywords), len(enh)):]; len(added) > 0 && rapid.IntRange(0, 2).Draw(t, "feed-back") != 0 {
+			// feed-back: the user types some of the very terms the expansion would add (the hinted tool's
+			// name, the action word, the target word) after, before or between the own words; whichever rule
+			// adds them must still not add them a second time, and the own words still come first
+			pick := rapid.SliceOfNDistinct(rapid.IntRange(0, len(added)-1), 1, min(len(added), 4), rapid.ID[int]).Draw(t, "fed-back")
+			var fed []string
+			for _, i := range pick {
+				fed = append(fed, added[i])
+			}
+			var q2 string
+			switch rapid.IntRange(0, 2).Draw(t, "fed-where") {
+			case 0:
+				q2 = q + " " + strings.Join(fed, " ")
+			case 1:
+				q2 = strings.Join(fed, " ") + " " + q
+			default:
+				ws := strings.Fields(q)
+				k := rapid.IntRange(0, len(ws)).Draw(t, "fed-at")
+				q2 = strings.Join(append(append(append([]string{}, ws[:k]...), fed...), ws[k:]...), " ")
+			}
+			a2 := p.ProcessQuery(q2)
+			enh2 := a2.GetEnhancedKeywords()
+			if !noDup(enh2) {
+				t.Fatalf("expanded term list of %q (the text %q plus terms its own expansion adds) has duplicates: %v", q2, q, enh2)
+			}
+			if !hasPrefix(enh2, a2.Keywords) {
+				t.Fatalf("expanded term list of %q does not begin with the extracted keywords: keywords=%v expanded=%v", q2, a2.Keywords, enh2)
+			}
+			if !reflect.DeepEqual(enh2, nlp.NewQueryProcessor().ProcessQuery(q2).GetEnhancedKeywords()) {
+				t.Fatalf("expanded terms differ between two analyses of %q", q2)
+			}
+			rec.Label("fed-back-expansion-terms")
+		}
 		if !hasPrefix(enh, a.Keywords) {
 			t.Fatalf("expanded term list of %q does not begin with the extracted keywords: keywords=%v expanded=%v", q, a.Keywords, enh)
 		}
